@@ -272,13 +272,22 @@ def strip_generics(path):
 
 
 class Program:
-    def __init__(self, facts_dir, meta=None):
+    def __init__(self, facts_dir, meta=None, replace=None):
+        """replace: {crate name: other facts dir} - take that crate's unit(s) from another extraction
+        (e.g. saito_core compiled without the `with-rayon` feature)"""
         self.facts_dir = facts_dir
         self.meta = meta or {}
         self.units = []
+        replace = replace or {}
+        files = []
         for f in sorted(glob.glob(os.path.join(facts_dir, "*.json"))):
-            if os.path.basename(f) == "meta.json":
+            base = os.path.basename(f)
+            if base == "meta.json" or any(base.startswith(c + "-") for c in replace):
                 continue
+            files.append(f)
+        for c, d in replace.items():
+            files += sorted(x for x in glob.glob(os.path.join(d, c + "-*.json")))
+        for f in sorted(files, key=os.path.basename):
             with open(f) as fh:
                 self.units.append(Unit(json.load(fh), os.path.basename(f)))
         self.bodies = {}
